@@ -109,6 +109,7 @@ MUTANTS = {
     'rfa_prot_shift': (P + 'trace_handlers/mach.py', "caller_prot = to_vm_prot((args[1] >> 8) & 0xff)", "caller_prot = to_vm_prot((args[1] >> 8) & 0x7f)", ['C11']),
     'dispatch_state_word': (P + 'trace_handlers/mach.py', "return MachDispatch(events, args[0], to_ast_reasons(args[1]), to_thread_state(args[2]), args[3])", "return MachDispatch(events, args[0], to_ast_reasons(args[1]), to_thread_state(args[2] & 0x7f), args[3])", ['C11']),
     'errno_byte': (P + 'trace_handlers/bsd.py', "    return success if not error_code else err", "    return success if not error_code & 0xff else err", ['C10']),
+    'tables_not_cleared_between_dumps': (P + 'kd_buf_parser.py', "        self.threads_pids.clear()\n        self.pids_names.clear()\n", "        pass\n", ['C13', 'C02']),
 }
 
 
